@@ -437,6 +437,9 @@ type Delta struct {
 	T      Tuple `json:"t"`
 	// Act, when set, is the action word sent over REST instead of the canonical one
 	Act string `json:"act,omitempty"`
+	// AlsoSet, when set, is sent over REST as subject_set NEXT TO the subject_id of T
+	// (JSON can say both; protobuf cannot)
+	AlsoSet *SetRef `json:"also_set,omitempty"`
 }
 
 func (s *Sys) Patch(ds []Delta) Resp {
@@ -449,7 +452,11 @@ func (s *Sys) Patch(ds []Delta) Resp {
 		if d.Act != "" {
 			a = ketoapi.PatchAction(d.Act)
 		}
-		body = append(body, &ketoapi.PatchDelta{Action: a, RelationTuple: d.T.API()})
+		rt := d.T.API()
+		if d.AlsoSet != nil && rt.SubjectID != nil {
+			rt.SubjectSet = &ketoapi.SubjectSet{Namespace: d.AlsoSet.NS, Object: d.AlsoSet.Obj, Relation: d.AlsoSet.Rel}
+		}
+		body = append(body, &ketoapi.PatchDelta{Action: a, RelationTuple: rt})
 	}
 	b, _ := json.Marshal(body)
 	return s.REST(s.WriteH, "PATCH", "/admin/relation-tuples", nil, b)
